@@ -7,7 +7,6 @@ from daemons.prefab import run
 from daemons.interfaces import exit
 
 import simulaqron
-from simulaqron.network import Network
 from simulaqron.settings import simulaqron_settings, SimBackend
 from simulaqron.toolbox.manage_nodes import NetworksConfigConstructor
 from simulaqron.toolbox.reset import main as reset_simulaqron
@@ -45,6 +44,11 @@ class SimulaQronDaemon(run.RunDaemon):
                 nodes += ["Node{}".format(i) for i in range(self.nrnodes - len(nodes))]
         else:
             nodes = self.nodes
+
+        # Imported here and not at the top of the module: the network code imports the simulation backend named by
+        # the current sim_backend setting, and a backend that cannot be imported must not keep the other commands
+        # (set, get, reset, nodes) from running - they are the only way to change that setting
+        from simulaqron.network import Network
 
         network = Network(name=self.name, nodes=nodes, topology=self.topology, new=self.new, force=True)
         network.start()
